@@ -8,6 +8,7 @@ runs to a fixpoint of the finite domain (lengths <= MAXLEN, values in {0,1,2}); 
 leaving the domain are counted as domain exits and not taken.
 Each transition is run twice: with the language's own numbers as contents and with host ints.
 """
+import collections
 from fractions import Fraction
 import decimal
 
@@ -268,10 +269,21 @@ def get_parser():
 
 def real_container(kind, state, flavour):
     api = snapshot.api()
-    mk = (lambda x: None if x is None else api.Decimal(x)) if flavour == 'dec' else (lambda x: x)
+    mk = (lambda x: None if x is None else api.Decimal(x)) if flavour in ('dec', 'sub') else (lambda x: x)
+    if flavour == 'sub':
+        # the host may bind any list / dict, including instances of subclasses (OrderedDict, an application's own record type)
+        return HostList(mk(x) for x in state) if kind == 'list' else HostDict((k, mk(v)) for k, v in state)
     if kind == 'list':
         return [mk(x) for x in state]
     return {k: mk(v) for k, v in state}
+
+
+class HostList(list):
+    pass
+
+
+class HostDict(collections.OrderedDict):
+    pass
 
 
 def in_domain(kind, st, b):
@@ -287,7 +299,7 @@ def step(res, kind, state, op, b):
     api = snapshot.api()
     text = op_text(kind, op)
     (mr, mstate) = apply_model(kind, state, op)
-    for flavour in ('dec', 'int'):
+    for flavour in ('dec', 'int', 'sub'):
         c = real_container(kind, state, flavour)
         names = {'c': c, 'hi': 2, 'hn': -1, 'hk': 1, 'hs': 'a'}
         res.count('transitions')
